@@ -6,7 +6,7 @@
 From Coq Require Import Reals List.
 From Coquelicot Require Import Complex.
 From SpdVerif Require Import Base.CfgNumOps Model.NumInst Spec.ConfigSpec Gen.ConfigTables Gen.ConfigSites Model.ConfigTypes Model.Config Model.NormSpectrum
-  Proofs.C20_idempotent Proofs.C20_spectrum Gen.CfgSteps Gen.C20_SpectrumSteps Proofs.CfgSteps_eq Proofs.C20_spectrum_steps_eq Model.Cfg_Composed Proofs.Cfg_composed Proofs.C20_sweep_spectrum.
+  Proofs.C20_idempotent Proofs.C20_spectrum Gen.CfgSteps Gen.C20_SpectrumSteps Proofs.CfgSteps_eq Proofs.C20_spectrum_steps_eq Model.Cfg_Composed Proofs.Cfg_composed Proofs.C20_sweep_spectrum Proofs.C20_swap.
 Import ListNotations.
 Local Open Scope R_scope.
 
@@ -184,6 +184,19 @@ Example C20_ex_sweep_base : exists base opt nf,
   try_as_optimum R_ops ex_K0 0 optimum_idler_sees_old_poling optimum_waist_sees_old_idler base = Ok (opt, nf).
 Proof. destruct (ex_optimises optimum_idler_sees_old_poling optimum_waist_sees_old_idler) as (s & s' & nf & _ & H). exists s, s', nf. exact H. Qed.
 
+(* ---- the idler variants see the same references from the other side (Proofs/C20_swap.v): exchanging signal and idler twice gives
+   the setup back (with the code's PMType::inverse, read off the source by the generator), so the "idler singles" of the swapped
+   setup's spectrum are the signal singles of the original one, point for point *)
+Theorem C20_swap_involutive : forall s : spdc R, swap_signal_idler pm_inverse (swap_signal_idler pm_inverse s) = s.
+Proof. exact swap_involutive_now. Qed.
+
+Theorem C20_idler_of_swapped_is_signal : forall K minpos op oi jsa_raw singles_raw norm_jsi norm_singles freq s j ji grid,
+  joint_spectrum_new K minpos op oi jsa_raw singles_raw norm_jsi norm_singles freq s = Ok j ->
+  joint_spectrum_new K minpos op oi jsa_raw singles_raw norm_jsi norm_singles freq (swap_signal_idler pm_inverse s) = Ok ji ->
+  jsi_singles_idler_normalized_range K minpos op oi jsa_raw singles_raw norm_jsi norm_singles freq pm_inverse ji grid =
+  Ok (map (fun p => jsi_singles_normalized singles_raw norm_singles j (snd p) (fst p)) grid).
+Proof. exact (idler_of_swapped_is_signal pm_inverse pm_inverse_involutive_c20). Qed.
+
 (* =====================================================================================================================
    FULL STRENGTH for the code as it is now (try_as_optimum_now = the model with the flags the generator reads off the source;
    the proof of C20_idempotent_now contains the obligation optimum_waist_sees_old_idler = false): optimising is idempotent for
@@ -252,3 +265,5 @@ Print Assumptions C20_sweep_raw_is_jsi.
 Print Assumptions C20_sweep_is_spectrum.
 Print Assumptions C20_sweep_unit_at_optimum.
 Print Assumptions C20_sweep_pointwise.
+Print Assumptions C20_swap_involutive.
+Print Assumptions C20_idler_of_swapped_is_signal.
